@@ -75,6 +75,33 @@ def verify(ctx, rng, out, src, order, n, il, xl, q, mode, desc):
     for t, (i, x) in enumerate(order):
         grid[i, x] = src['traces'][t]
     with SgzReader(out) as r:
+        m = MODEL.get('m')
+        if m is not None:
+            # K: Model/Irregular.inferRange vs the grid in the written header; Irregular.populated (ordinal -> grid slot)
+            # vs the reader's mapping, from the stored inline-number array
+            import struct as _st
+            raw = open(out, 'rb').read(64)
+            ils = sorted(set(il[i] for (i, x) in order))
+            xls = sorted(set(xl[x] for (i, x) in order))
+            for name, ids, o0, od, cnt in (('il', ils, 24, 36, 12), ('xl', xls, 20, 32, 8)):
+                ctx.stats['corr_requests'] += 1
+                ids_shuffled = [ids[j] for j in rng.permutation(len(ids))]
+                ans = m.ask('irr infer ' + ' '.join(str(v) for v in ids_shuffled))
+                start, step, count = _st.unpack('<i', raw[o0:o0 + 4])[0], _st.unpack('<i', raw[od:od + 4])[0], \
+                    _st.unpack('<I', raw[cnt:cnt + 4])[0]
+                real = f'{start} {start + step * (count - 1)} {step}'
+                if ans != real:
+                    ctx.corr_fail('Model.Irregular/inferRange', 'irr infer ' + ' '.join(str(v) for v in ids_shuffled), ans, real,
+                                  dict(desc, axis=name))
+            arrs = spec.read_footer_arrays(out)
+            if 189 in arrs:
+                ctx.stats['corr_requests'] += 1
+                stored = [int(v) for v in np.asarray(arrs[189]).ravel()]
+                ans = m.ask('irr pop ' + ' '.join(str(v) for v in stored))
+                r.get_unstructured_mask()
+                real = ' '.join(str(int(v)) for v in np.flatnonzero(r.mask))
+                if ans != real:
+                    ctx.corr_fail('Model.Irregular/populated', f'irr pop <{len(stored)} values>', ans[:120], real[:120], desc)
         if list(map(int, r.ilines)) != il or list(map(int, r.xlines)) != xl:
             ctx.fail(f'inferred grid il {list(map(int, r.ilines))[:3]} xl {list(map(int, r.xlines))[:3]} != '
                      f'il {il[:3]} xl {xl[:3]}', desc)
@@ -131,7 +158,18 @@ def verify(ctx, rng, out, src, order, n, il, xl, q, mode, desc):
             ctx.fail(f'emulator trace[{t}] is not the {t}-th source trace', dict(desc, trace=t))
 
 
+MODEL = {}
+
+
 def run(ctx):
+    MODEL['m'] = core.Model()
+    try:
+        run_(ctx)
+    finally:
+        MODEL.pop('m').close()
+
+
+def run_(ctx):
     rng = gen.rng_for(ctx.seed, 'c08')
     for k in range(45 if ctx.quick else 900):
         one(ctx, rng, k)
